@@ -296,10 +296,11 @@ bool parse_normal_range(Hunk& hunk, const std::string& line)
     if (!parser.consume_line_number(hunk.old_file_range.start_line))
         return false;
 
-    // The next character must either be a ',' followed by a number of lines, or just a command.
+    // The next character must either be a ',' followed by the end line, or just a command.
     // Skip any optional ',' - remembering whether we found it for later on.
+    LineNumber old_range_end_line = hunk.old_file_range.start_line;
     bool has_first_comma = parser.consume_specific(',');
-    if (has_first_comma && !parser.consume_line_number(hunk.old_file_range.number_of_lines))
+    if (has_first_comma && !parser.consume_line_number(old_range_end_line))
         return false;
 
     // Ensure we've now reached a valid normal command.
@@ -307,11 +308,12 @@ bool parse_normal_range(Hunk& hunk, const std::string& line)
     if (command != 'c' && command != 'a' && command != 'd')
         return false;
 
-    // Only a single line between the start and end of the old file. If we are appending then
+    // Work backwards from the end line to determine the number of lines. If we are appending then
     // the old file must not have any lines in the diff. Otherwise there must be something which
     // is being changed or removed.
-    if (!has_first_comma)
-        hunk.old_file_range.number_of_lines = command == 'a' ? 0 : 1;
+    hunk.old_file_range.number_of_lines = saturating_add(old_range_end_line - hunk.old_file_range.start_line, 1);
+    if (!has_first_comma && command == 'a')
+        hunk.old_file_range.number_of_lines = 0;
 
     // All of the normal commands must have an integer once we've reached this point.
     if (!parser.consume_line_number(hunk.new_file_range.start_line))
@@ -329,7 +331,7 @@ bool parse_normal_range(Hunk& hunk, const std::string& line)
         new_range_end_line = hunk.new_file_range.start_line;
     }
 
-    hunk.new_file_range.number_of_lines = new_range_end_line - hunk.new_file_range.start_line + 1;
+    hunk.new_file_range.number_of_lines = saturating_add(new_range_end_line - hunk.new_file_range.start_line, 1);
     if (command == 'd')
         --hunk.new_file_range.number_of_lines;
 
